@@ -122,13 +122,29 @@ def setup_repo():
 
 
 _MOD = None
+_HIST = []     # indices of the cases this process has run so far (hidden module-level state makes history matter)
+
+
+def _expired():
+    from . import simenv
+    return simenv.expired()
 
 
 def _worker(chunk):
     st = Stats()
     for idx, case in chunk:
+        if _expired():
+            # a changed tree can make single cases arbitrarily slow; what was explored so far is still reported
+            if "deadline reached: remaining cases skipped" not in st.caps:
+                st.caps.append("deadline reached: remaining cases skipped")
+            st.count("cases_skipped_after_deadline")
+            continue
+        nv = len(st.violations)
         try:
             _MOD.run_case(case, st)
+            for v in st.violations[nv:]:
+                v["hist_idx"] = list(_HIST)
+            _HIST.append(idx)
         except Exception as e:  # noqa: BLE001
             from .simenv import HarnessError
             if isinstance(e, HarnessError):
@@ -139,11 +155,44 @@ def _worker(chunk):
     return st
 
 
+def _fresh_replay(pid, path):
+    import subprocess
+    try:
+        r = subprocess.run([sys.executable, "-m", "mc.run", pid, "--replay", path], cwd=VERIF, capture_output=True,
+                           text=True, timeout=600)
+    except subprocess.TimeoutExpired:
+        return False
+    return r.returncode == 1 and "VIOLATION property=" in r.stdout
+
+
+def _reproduce_with_history(pid, path, v, cases):
+    """A violation that does not occur when its case runs alone may need the state that earlier cases left in the
+    process (a module-level buffer or cache of the library). Find the shortest suffix of the cases that ran before
+    it in the same worker that reproduces it in a fresh process, and make the replay file carry that history."""
+    hist = v.get("hist_idx")
+    if hist is None:
+        return False
+    rp = json.load(open(path))
+    if _fresh_replay(pid, path):
+        return True
+    k = 1
+    while True:
+        rp["history"] = [cases[i] for i in hist[-k:]] if k else []
+        with open(path, "w") as f:
+            json.dump(rp, f, indent=1, default=repr)
+        if _fresh_replay(pid, path):
+            return True
+        if k >= len(hist):
+            return False
+        k = min(len(hist), k * 2)
+
+
 def run_check(pid, tier, seed, jobs, replay=None):
     global _MOD
     t0 = time.time()
     repo = setup_repo()
     from . import simenv, findings, evidence
+    simenv.DEADLINE_AT = t0 + float(os.environ.get("VERIF_DEADLINE_S", "600" if tier == "quick" else "7200"))
     simenv.patch_modules()
     mod = importlib.import_module("checks." + pid.lower())
     _MOD = mod
@@ -151,6 +200,9 @@ def run_check(pid, tier, seed, jobs, replay=None):
     if replay is not None:
         rp = json.load(open(replay))
         st = Stats()
+        for h in rp.get("history", []):
+            # the violation needs the state earlier cases left behind in the process (module-level state of the library)
+            mod.run_case(h, Stats())
         mod.run_case(rp["case"], st)
         hit = [v for v in st.violations if v["signature"] == rp["signature"]]
         for v in st.violations:
@@ -166,10 +218,11 @@ def run_check(pid, tier, seed, jobs, replay=None):
         print("HARNESS-ERROR no cases generated")
         return 3
     # determinism self-check: the first cases twice, in this process
-    for case in cases[:getattr(mod, "DETERMINISM_CASES", 2)]:
+    for i, case in enumerate(cases[:getattr(mod, "DETERMINISM_CASES", 2)]):
         a, b = Stats(), Stats()
         mod.run_case(case, a)
         mod.run_case(case, b)
+        _HIST.extend([i, i])
         if a.digest() != b.digest():
             print(f"HARNESS-ERROR nondeterministic case {case!r}")
             return 3
@@ -210,6 +263,7 @@ def run_check(pid, tier, seed, jobs, replay=None):
         by_sig.setdefault(v["signature"], []).append(v)
     rc = 0
     n_known = n_new = 0
+    unreproduced = []
     for sig in sorted(by_sig):
         vs = by_sig[sig]
         is_known = findings.is_known(known, sig)
@@ -221,9 +275,11 @@ def run_check(pid, tier, seed, jobs, replay=None):
             # believe a violation only if it reproduces from its replay file in a fresh run
             chk = Stats()
             mod.run_case(json.load(open(path))["case"], chk)
-            if not any(x["signature"] == sig for x in chk.violations):
-                print(f"HARNESS-ERROR violation {sig} does not reproduce from {path}")
-                return 3
+            if not any(x["signature"] == sig for x in chk.violations) and not _reproduce_with_history(pid, path, v, cases):
+                # not believed; the run is only usable if some other violation does reproduce
+                unreproduced.append(sig)
+                os.remove(path)
+                continue
             if is_known:
                 n_known += 1
                 print(f"KNOWN-FINDING: property={pid} {sig}: {findings.text(known, sig)} (replay={path})")
@@ -232,6 +288,12 @@ def run_check(pid, tier, seed, jobs, replay=None):
                 rc = 1
                 print(f"VIOLATION property={pid} replay={path}")
                 print(f"  signature={sig} expected={v['expected']!r} observed={v['observed']!r}")
+    if unreproduced:
+        for sig in unreproduced[:5]:
+            print(f"UNREPRODUCED signature={sig} (observed once, did not recur from its replay file: not counted)")
+        if not n_new and not n_known:
+            print(f"HARNESS-ERROR {len(unreproduced)} observed violation(s), none reproduces from its replay file")
+            return 3
     wall = time.time() - t0
     evidence.write(pid, mod, total, tier, seed, wall, n_new, n_known, repo)
     print(f"{pid} tier={tier} seed={seed}: evaluations={total.evaluations} states={total.states} "
